@@ -74,7 +74,19 @@ fn run_case(c: &LatCase) -> Option<LatOutcome> {
                 s = match conn {
                     0 => s.shuffle().map(|x| x).boxed(),
                     1 => s.group_by(|x| x % 5).drop_key().boxed(),
-                    _ => s.replication(Replication::One).map(|x| x).boxed(),
+                    2 => s.replication(Replication::One).map(|x| x).boxed(),
+                    3 => {
+                        // route(): its own End variant; the routes are merged back
+                        let mut r = s.route().add_route(|x| x % 2 == 0).add_route(|_| true).build().into_iter();
+                        let (a, b) = (r.next().unwrap(), r.next().unwrap());
+                        a.map(|x| x).merge(b.map(|x| x)).boxed()
+                    }
+                    _ => {
+                        // split(): two copies, one is filtered away after a shuffle
+                        let mut sp = s.split(2).into_iter();
+                        let (a, b) = (sp.next().unwrap(), sp.next().unwrap());
+                        a.shuffle().merge(b.filter(|_| false).shuffle()).boxed()
+                    }
                 };
             }
             let rx = s.collect_channel();
@@ -155,7 +167,7 @@ pub fn run(args: &Args, report: &mut Report) {
         let adaptive = rng.chance(4, 5);
         let c = LatCase {
             depth,
-            conns: (0..depth).map(|_| rng.below(3) as u8).collect(),
+            conns: (0..depth).map(|_| rng.below(5) as u8).collect(),
             adaptive,
             batch_size: *rng.pick(&[8usize, 64, 1024]),
             max_delay_ms: *rng.pick(&[2u64, 5, 10, 20, 50]),
